@@ -369,7 +369,17 @@ class R:
         if fname == "_row_number":
             return list(range(1, n + 1))
         if fname == "cumcount":
-            raise Unspecified("cumcount")
+            # "cumulative number of non-NA cells" along the declared order, the current cell included
+            # (the SQL realisation COUNT(x) OVER (...) and the Polars realisation agree on this reading)
+            if self.d("pandas.cumcount_is_row_position"):
+                self.hit("pandas.cumcount_is_row_position")
+                return list(range(n))
+            out, n_seen = [], 0
+            for v in vals:
+                if v is not None:
+                    n_seen += 1
+                out.append(n_seen)
+            return out
         if fname in ("cumsum", "cummax", "cummin", "cumprod"):
             # SQL window aggregate: running value over the non-null values seen so far
             out = []
@@ -405,8 +415,12 @@ class R:
                 out.append(vals[j] if 0 <= j < n else None)
             return out
         if fname == "first":
+            if vals[0] is None:
+                raise Unspecified("first of a partition that starts with a missing value")
             return [vals[0]] * n
         if fname == "last":
+            if vals[-1] is None:
+                raise Unspecified("last of a partition that ends with a missing value")
             return [vals[-1]] * n
         if fname == "ffill":
             out, last = [], None
@@ -423,7 +437,11 @@ class R:
                 out[i] = nxt
             return out
         if fname == "rank":
-            raise Unspecified("rank")
+            # ranking of the item among the items of its partition; ties and missing items are not settled
+            if any(v is None for v in vals) or len(set(vals)) != len(vals):
+                raise Unspecified("rank with ties or missing items")
+            srt = sorted(vals)
+            return [srt.index(v) + 1 for v in vals]
         raise Unspecified("window fn " + fname)
 
     def s_project(self, st, cols, rows):
